@@ -2,6 +2,7 @@
 # run_seeds.sh [name...]: applies each seeded change to /repo, runs the check of its
 # property (quick tier), records whether a VIOLATION was reported, and restores /repo.
 cd /verif
+if [ -n "$(git -C /repo status --short)" ]; then echo "refusing: /repo has uncommitted changes"; exit 1; fi
 names="$@"; [ -z "$names" ] && names=$(ls seeded)
 for n in $names; do
   p=$(python3 -c "import json;print(json.load(open('/verif/seeded/$n/meta.json'))['property'])")
